@@ -520,7 +520,8 @@ TrACall ==
                                    !.tlbase = runs]
              \* thread-local systems run once per wait(): ready again
              /\ st' = IF e.op = "wait" THEN [x \in Sys |-> IF x \in ToSet(tls[TopB]) THEN "idle" ELSE st[x]] ELSE st
-             /\ UNCHANGED <<ok, runs, dsp, world, w0, nset, ndis>>
+             /\ nset' = IF e.op = "setup" THEN [s \in Sys |-> 0] ELSE nset
+             /\ UNCHANGED <<ok, runs, dsp, world, w0, ndis>>
           ELSE
              /\ asy' = [asy EXCEPT !.incall = "none", !.waits = IF e.op = "wait" THEN @ + 1 ELSE @]
              /\ UNCHANGED <<st, runs, dsp, world, w0, nset, ndis>>
@@ -528,6 +529,8 @@ TrACall ==
                   \* C12: wait() runs every thread-local system (exactly once per wait)
                   !.c12 = @ /\ ((e.op = "wait" /\ ~asy.poisoned /\ e.out = "ok") =>
                                   \A x \in ToSet(tls[TopB]) : st[x] = "done" /\ runs[x] = asy.tlbase[x] + 1),
+                  \* C13: AsyncDispatcher::setup reaches every system (when the setup hooks are being logged)
+                  !.c13 = @ /\ ((e.op = "setup" /\ e.out = "ok" /\ e.setuplog) => \A x \in Live13 : nset[x] = 1),
                   !.c15 = @ /\
                     IF asy.poisoned THEN
                        \* a system of a background dispatch panicked: that dispatch never completes, so no
